@@ -8,6 +8,7 @@ import (
 
 	"github.com/grafana/carbon-relay-ng/aggregator"
 	"github.com/grafana/carbon-relay-ng/matcher"
+	"github.com/grafana/carbon-relay-ng/rewriter"
 	"github.com/grafana/carbon-relay-ng/stats"
 	"github.com/grafana/carbon-relay-ng/validate"
 	m20 "github.com/metrics20/go-metrics20/carbon20"
@@ -40,10 +41,39 @@ func VerifC02Gate() {
 	if blacklisted {
 		t.AddBlacklist(&all)
 	}
+	// param after-changes=1: the table went through runtime changes first (an entry of every kind added and deleted
+	// again, so that the lists are what they were): the configured validation levels are still what decides
+	if verifParam("after-changes") == "1" {
+		x, _ := matcher.New("zz", "", "", "", "", "")
+		t.AddBlacklist(&x)
+		if blacklisted {
+			t.DelBlacklist(1)
+		} else {
+			t.DelBlacklist(0)
+		}
+		t.AddRoute(&verifCapRoute{key: "r2", m: x})
+		t.DelRoute("r2")
+		if rw, err := rewriter.New("zz", "y", "", -1); err == nil {
+			t.AddRewriter(rw)
+			t.DelRewriter(0)
+		}
+		am2, _ := matcher.New("", "", "", "", "^zz", "")
+		if a2, err := aggregator.NewMocked("sum", am2, "agg2", false, 10, 20, false, make(chan []byte, 4), 4, verifNowFixed, make(chan time.Time)); err == nil {
+			t.AddAggregator(a2)
+			t.DelAggregator(1)
+		}
+	}
 	bl0 := stats.Counter("unit=Metric.direction=blacklist").Count()
 
 	n := verifChoice("linelen", 1+len(verifParam("maxlen")))
 	line := verifBytes("line", n)
+	if verifParam("m20name") == "1" {
+		// a line shaped like a metrics2.0 point: k=v <digit> <digit> with free k, v (what the m2.0 levels disagree on)
+		line = verifBytes("line", 7)
+		verifAssume(line[1] == '=' && line[3] == ' ' && line[5] == ' ')
+		verifAssume(line[4] >= '0' && line[4] <= '9' && line[6] >= '0' && line[6] <= '9')
+		verifAssume(line[0] > ' ' && line[2] > ' ')
+	}
 	if verifParam("ascii") == "1" {
 		for _, b := range line {
 			verifAssume(b < 0x80)
